@@ -31,6 +31,13 @@ MC_Scen_ifh == Scen(MC_Cfg_ifh)
 MC_Scen_noopen == Scen(MC_Cfg_noopen)
 MC_Scen_seal == Scen(MC_Cfg_seal)
 MC_Scen_seal_noopen == Scen(MC_Cfg_seal_noopen)
+\* as-found defects switched back on (anti-vacuity configurations only; their states are not evidence)
+MC_AF_none == {}
+MC_AF_c05 == {"ifh-creds", "create-dir", "create-stale-attr"}
+MC_AF_c18 == {"seal-holes"}
+MC_AF_c18fd == {"fd-close"}
+MC_AF_c06 == {"seeded:nofollow"}
+MC_Names1 == {"a"}
 MC_Tree_plain == << <<"a", "reg", <<97, 98>>, 420, 0>>, <<"d", "dir", "", 493, 0>> >>
 MC_Tree_links == << <<"a", "reg", <<97, 98>>, 420, 0>>, <<"d", "dir", "", 493, 0>>, <<"l", "lnk", "../secret", 511, 0>> >>
 =============================================================================
